@@ -3,53 +3,21 @@ package main
 import (
 	"fmt"
 	"go/ast"
-	"go/types"
 )
 
 func dbgCty(p *Prog) {
 	for _, fn := range p.Funcs {
 		info := fn.Info()
 		ast.Inspect(fn.Body, func(x ast.Node) bool {
-			if lit, ok := x.(*ast.FuncLit); ok && lit != fn.Lit {
-				return false
-			}
 			switch e := x.(type) {
-			case *ast.IndexExpr:
-				t := info.TypeOf(e.X)
-				if t == nil {
-					return true
+			case *ast.CompositeLit:
+				t := info.TypeOf(e)
+				if t != nil && typeIs(t, "hcl-lang/lang", "HoverData") {
+					fmt.Printf("HD  %s %s  Range: %s\n", p.Pos(e), fn.Name, exprStr(orNil(litField(e, "Range"))))
 				}
-				if tv, ok := info.Types[e.X]; ok && tv.IsType() {
-					return true
-				}
-				switch t.Underlying().(type) {
-				case *types.Map:
-					return true
-				case *types.Signature:
-					return true
-				}
-				// skip ranging index
-				ranging := false
-				for _, f := range fn.FactsAt(e) {
-					if f.Kind == FactRange && f.Range.Key != nil && fn.Canon(f.Range.X) == fn.Canon(e.X) && fn.Canon(f.Range.Key) == fn.Canon(e.Index) {
-						ranging = true
-					}
-				}
-				if ranging {
-					return true
-				}
-				fmt.Printf("IDX %s %s  %s\n", p.Pos(e), fn.Name, exprStr(e))
-				for _, a := range fn.GuardsAt(e).Atoms() {
-					if a.E != nil {
-						fmt.Printf("      %v %s\n", a.Pol, exprStr(a.E))
-					}
-				}
-			case *ast.SliceExpr:
-				fmt.Printf("SLC %s %s  %s\n", p.Pos(e), fn.Name, exprStr(e))
-				for _, a := range fn.GuardsAt(e).Atoms() {
-					if a.E != nil {
-						fmt.Printf("      %v %s\n", a.Pol, exprStr(a.E))
-					}
+			case *ast.CallExpr:
+				if lastSel(e.Fun) == "HoverAtPos" {
+					fmt.Printf("CALL %s %s  %s\n", p.Pos(e), fn.Name, short(exprStr(e.Fun), 120))
 				}
 			}
 			return true
